@@ -76,7 +76,10 @@ pub struct MProtected {
 
 impl MProtected {
     pub fn built(h: MHeader) -> Self {
-        MProtected { original: None, header: h }
+        MProtected {
+            original: None,
+            header: h,
+        }
     }
 }
 
@@ -246,9 +249,11 @@ impl MValue {
             MValue::Bytes(b) => Value::Bytes(b.clone()),
             MValue::Text(t) => Value::Text(t.clone()),
             MValue::Array(a) => Value::Array(a.iter().map(|x| x.to_value()).collect()),
-            MValue::Map(m) => {
-                Value::Map(m.iter().map(|(k, v)| (k.to_value(), v.to_value())).collect())
-            }
+            MValue::Map(m) => Value::Map(
+                m.iter()
+                    .map(|(k, v)| (k.to_value(), v.to_value()))
+                    .collect(),
+            ),
             MValue::Tag(t, v) => Value::Tag(*t, Box::new(v.to_value())),
             MValue::Bool(b) => Value::Bool(*b),
             MValue::Null => Value::Null,
@@ -263,7 +268,9 @@ impl MValue {
             Value::Text(t) => MValue::Text(t.clone()),
             Value::Array(a) => MValue::Array(a.iter().map(MValue::from_value).collect()),
             Value::Map(m) => MValue::Map(
-                m.iter().map(|(k, v)| (MValue::from_value(k), MValue::from_value(v))).collect(),
+                m.iter()
+                    .map(|(k, v)| (MValue::from_value(k), MValue::from_value(v)))
+                    .collect(),
             ),
             Value::Tag(t, v) => MValue::Tag(*t, Box::new(MValue::from_value(v))),
             Value::Bool(b) => MValue::Bool(*b),
@@ -281,7 +288,11 @@ impl MValue {
             Kind::Bytes(b) => MValue::Bytes(b.clone()),
             Kind::Text(t) => MValue::Text(String::from_utf8_lossy(t).into_owned()),
             Kind::Array(a) => MValue::Array(a.iter().map(MValue::from_item).collect()),
-            Kind::Map(m) => MValue::Map(m.iter().map(|(k, v)| (MValue::from_item(k), MValue::from_item(v))).collect()),
+            Kind::Map(m) => MValue::Map(
+                m.iter()
+                    .map(|(k, v)| (MValue::from_item(k), MValue::from_item(v)))
+                    .collect(),
+            ),
             Kind::Tag(t, b) => MValue::Tag(*t, Box::new(MValue::from_item(b))),
             Kind::Simple(20) => MValue::Bool(false),
             Kind::Simple(21) => MValue::Bool(true),
@@ -298,7 +309,9 @@ impl MValue {
             MValue::Bytes(b) => Item::bytes(b),
             MValue::Text(t) => Item::text(t),
             MValue::Array(a) => Item::array(a.iter().map(|x| x.to_item()).collect()),
-            MValue::Map(m) => Item::map(m.iter().map(|(k, v)| (k.to_item(), v.to_item())).collect()),
+            MValue::Map(m) => {
+                Item::map(m.iter().map(|(k, v)| (k.to_item(), v.to_item())).collect())
+            }
             MValue::Tag(t, v) => Item::tag(*t, v.to_item()),
             MValue::Bool(b) => Item::bool(*b),
             MValue::Null => Item::null(),
@@ -314,7 +327,8 @@ impl MValue {
 fn reg<T: EnumI64>(m: &MReg) -> coset::RegisteredLabel<T> {
     match m {
         MReg::Assigned(i) => coset::RegisteredLabel::Assigned(
-            T::from_i64(*i).unwrap_or_else(|| panic!("harness: palette value {} not in registry", i)),
+            T::from_i64(*i)
+                .unwrap_or_else(|| panic!("harness: palette value {} not in registry", i)),
         ),
         MReg::Text(t) => coset::RegisteredLabel::Text(t.clone()),
     }
@@ -323,7 +337,8 @@ fn reg<T: EnumI64>(m: &MReg) -> coset::RegisteredLabel<T> {
 fn regp<T: EnumI64 + iana::WithPrivateRange>(m: &MRegP) -> coset::RegisteredLabelWithPrivate<T> {
     match m {
         MRegP::Assigned(i) => coset::RegisteredLabelWithPrivate::Assigned(
-            T::from_i64(*i).unwrap_or_else(|| panic!("harness: palette value {} not in registry", i)),
+            T::from_i64(*i)
+                .unwrap_or_else(|| panic!("harness: palette value {} not in registry", i)),
         ),
         MRegP::Private(i) => coset::RegisteredLabelWithPrivate::PrivateUse(*i),
         MRegP::Text(t) => coset::RegisteredLabelWithPrivate::Text(t.clone()),
@@ -392,12 +407,23 @@ impl MHeader {
         coset::Header {
             alg: self.alg.as_ref().map(regp::<iana::Algorithm>),
             crit: self.crit.iter().map(reg::<iana::HeaderParameter>).collect(),
-            content_type: self.content_type.as_ref().map(reg::<iana::CoapContentFormat>),
+            content_type: self
+                .content_type
+                .as_ref()
+                .map(reg::<iana::CoapContentFormat>),
             key_id: self.key_id.clone(),
             iv: self.iv.clone(),
             partial_iv: self.partial_iv.clone(),
-            counter_signatures: self.counter_signatures.iter().map(|s| s.to_coset()).collect(),
-            rest: self.rest.iter().map(|(l, v)| (l.to_coset(), v.to_value())).collect(),
+            counter_signatures: self
+                .counter_signatures
+                .iter()
+                .map(|s| s.to_coset())
+                .collect(),
+            rest: self
+                .rest
+                .iter()
+                .map(|(l, v)| (l.to_coset(), v.to_value()))
+                .collect(),
         }
     }
     pub fn from_coset(h: &coset::Header) -> MHeader {
@@ -408,7 +434,11 @@ impl MHeader {
             key_id: h.key_id.clone(),
             iv: h.iv.clone(),
             partial_iv: h.partial_iv.clone(),
-            counter_signatures: h.counter_signatures.iter().map(MSignature::from_coset).collect(),
+            counter_signatures: h
+                .counter_signatures
+                .iter()
+                .map(MSignature::from_coset)
+                .collect(),
             rest: h
                 .rest
                 .iter()
@@ -423,7 +453,10 @@ impl MHeader {
             m.push((Item::uint(1), a.to_item()));
         }
         if !self.crit.is_empty() {
-            m.push((Item::uint(2), Item::array(self.crit.iter().map(|c| c.to_item()).collect())));
+            m.push((
+                Item::uint(2),
+                Item::array(self.crit.iter().map(|c| c.to_item()).collect()),
+            ));
         }
         if let Some(c) = &self.content_type {
             m.push((Item::uint(3), c.to_item()));
@@ -442,7 +475,12 @@ impl MHeader {
         } else if self.counter_signatures.len() > 1 {
             m.push((
                 Item::uint(7),
-                Item::array(self.counter_signatures.iter().map(|s| s.to_item()).collect()),
+                Item::array(
+                    self.counter_signatures
+                        .iter()
+                        .map(|s| s.to_item())
+                        .collect(),
+                ),
             ));
         }
         for (l, v) in &self.rest {
@@ -516,17 +554,31 @@ impl MSignature {
             return None;
         }
         let pb = a[0].as_bytes()?;
-        let ph = if pb.is_empty() { MHeader::default() } else { MHeader::from_item(&crate::refcbor::read_exact(pb).ok()?)? };
-        Some(MSignature { protected: MProtected::built(ph), unprotected: MHeader::from_item(&a[1])?, signature: a[2].as_bytes()?.to_vec() })
+        let ph = if pb.is_empty() {
+            MHeader::default()
+        } else {
+            MHeader::from_item(&crate::refcbor::read_exact(pb).ok()?)?
+        };
+        Some(MSignature {
+            protected: MProtected::built(ph),
+            unprotected: MHeader::from_item(&a[1])?,
+            signature: a[2].as_bytes()?.to_vec(),
+        })
     }
 }
 
 impl MProtected {
     pub fn to_coset(&self) -> coset::ProtectedHeader {
-        coset::ProtectedHeader { original_data: self.original.clone(), header: self.header.to_coset() }
+        coset::ProtectedHeader {
+            original_data: self.original.clone(),
+            header: self.header.to_coset(),
+        }
     }
     pub fn from_coset(p: &coset::ProtectedHeader) -> MProtected {
-        MProtected { original: p.original_data.clone(), header: MHeader::from_coset(&p.header) }
+        MProtected {
+            original: p.original_data.clone(),
+            header: MHeader::from_coset(&p.header),
+        }
     }
     /// Reference bytes of the protected bstr content.
     pub fn ref_bytes(&self) -> Vec<u8> {
@@ -652,7 +704,9 @@ impl MRecipient {
             opt_bytes_item(&self.ciphertext),
         ];
         if !self.recipients.is_empty() {
-            v.push(Item::array(self.recipients.iter().map(|r| r.to_item()).collect()));
+            v.push(Item::array(
+                self.recipients.iter().map(|r| r.to_item()).collect(),
+            ));
         }
         Item::array(v)
     }
@@ -774,7 +828,11 @@ impl MKey {
             alg: self.alg.as_ref().map(regp::<iana::Algorithm>),
             key_ops: self.key_ops.iter().map(reg::<iana::KeyOperation>).collect(),
             base_iv: self.base_iv.clone(),
-            params: self.params.iter().map(|(l, v)| (l.to_coset(), v.to_value())).collect(),
+            params: self
+                .params
+                .iter()
+                .map(|(l, v)| (l.to_coset(), v.to_value()))
+                .collect(),
         }
     }
     pub fn from_coset(k: &coset::CoseKey) -> MKey {
@@ -834,7 +892,11 @@ impl MClaims {
             not_before: c.not_before.as_ref().map(MTimestamp::from_coset),
             issued_at: c.issued_at.as_ref().map(MTimestamp::from_coset),
             cwt_id: c.cwt_id.clone(),
-            rest: c.rest.iter().map(|(n, v)| (un_regp(n), MValue::from_value(v))).collect(),
+            rest: c
+                .rest
+                .iter()
+                .map(|(n, v)| (un_regp(n), MValue::from_value(v)))
+                .collect(),
         }
     }
 }
@@ -937,11 +999,19 @@ impl MSuppPubInfo {
             return None;
         }
         let pb = a[1].as_bytes()?;
-        let ph = if pb.is_empty() { MHeader::default() } else { MHeader::from_item(&crate::refcbor::read_exact(pb).ok()?)? };
+        let ph = if pb.is_empty() {
+            MHeader::default()
+        } else {
+            MHeader::from_item(&crate::refcbor::read_exact(pb).ok()?)?
+        };
         Some(MSuppPubInfo {
             key_data_length: u64::try_from(a[0].as_int()?).ok()?,
             protected: MProtected::built(ph),
-            other: if a.len() == 3 { Some(a[2].as_bytes()?.to_vec()) } else { None },
+            other: if a.len() == 3 {
+                Some(a[2].as_bytes()?.to_vec())
+            } else {
+                None
+            },
         })
     }
 }
@@ -972,7 +1042,10 @@ impl MKey {
             m.push((Item::uint(3), a.to_item()));
         }
         if !self.key_ops.is_empty() {
-            m.push((Item::uint(4), Item::array(self.key_ops.iter().map(|o| o.to_item()).collect())));
+            m.push((
+                Item::uint(4),
+                Item::array(self.key_ops.iter().map(|o| o.to_item()).collect()),
+            ));
         }
         if !self.base_iv.is_empty() {
             m.push((Item::uint(5), Item::bytes(&self.base_iv)));
